@@ -15,7 +15,7 @@ RULE = (
     "fresh verdict under the provider's values at that moment (model) and the provider's mapping must be unchanged afterwards. "
     "non-trivial = distinct history with a provider and >=2 calls"
 )
-SHAPES = ["n k", "a k", "k", "k=3", "a+k", "k/2 a", "n*k", "... k", "a b"]
+SHAPES = ["n k", "a k", "k", "k=3", "a+k", "k/2 a", "n*k", "... k", "a b", "n=k+1", "a n=k*2", "n=k+1"]  # (named expressions whose own name the provider may bind)
 
 
 def gen(rng, tier) -> str:
@@ -25,7 +25,7 @@ def gen(rng, tier) -> str:
         steps.append(f"A|T{i}|FloatTensor,0,{s}")
     kinds = {"p1": "fresh", "p2": "long", "p3": rng.choice(["bad", "bad", "badfalsy"]), "p4": "falsy"}
     for pid, kind in kinds.items():
-        steps.append(f"V|{pid}|{kind}|{rng.choice(['', 'k:3', 'k:3;n:4', 'a:2;k:3', 'z:9'])}")
+        steps.append(f"V|{pid}|{kind}|{rng.choice(['', 'k:3', 'k:3;n:4', 'a:2;k:3', 'z:9', 'k:2;n:4', 'k:3;n:6'])}")
     fns = {}
     for fid in ("f1", "f2", "f3", "f4"):
         pid = rng.choice(["p1", "p2", "p2", "p3", "p4", "p4", "self:p1", "self:p2", "self:p3", "self:p4", "selfraw", "-"])
